@@ -108,6 +108,28 @@ static VList genVectors(Rng & rng, size_t S, size_t n, int & shape) {
     return vs;
 }
 
+// Exact ties at a simplex corner (dimension >= 3): several mutually non-dominated vectors share EXACTLY the maximal value at
+// corner c; one more vector with the same corner value lies below (useless) or above (needed, control) their mixture away from
+// the corner. Which tied vector extractBestAtSimplexCorners picks is decided by the lexicographic tie-break alone.
+static VList genCornerTie(Rng & rng, size_t S, bool & uselessIncluded) {
+    VList vs;
+    const size_t c = rng.below(S);
+    const double t = quarter(rng, 1, 4), off = rng.coin() ? 0.0 : quarter(rng, -8, 1);
+    std::vector<size_t> dirs; for (size_t d = 0; d < S; ++d) if (d != c) dirs.push_back(d);
+    const size_t m = std::min<size_t>(dirs.size(), 2 + rng.below(2));
+    Vector mean = Vector::Zero(S);
+    for (size_t j = 0; j < m; ++j) { Vector u = Vector::Zero(S); u[c] = t; u[dirs[j]] = (double)rng.range(1, 3); vs.push_back(u); mean += u / (double)m; }
+    if (m == 3) mean = (vs[0] + vs[1]) / 2.0 * 0.5 + vs[2] * 0.5;          // keep the mixture dyadic
+    uselessIncluded = rng.coin(2, 3);
+    Vector w = mean * (uselessIncluded ? (rng.coin() ? 0.5 : 0.75) : 1.25); w[c] = t; vs.push_back(w);
+    for (size_t d : dirs) if (rng.coin(3, 4)) { Vector b = Vector::Zero(S); b[d] = t + (double)rng.range(1, 5); vs.push_back(b); }
+    if (rng.coin(1, 4)) vs.push_back(vs[rng.below(vs.size())]);             // an exact duplicate
+    for (size_t i = rng.below(3); i > 0; --i) { Vector r(S); for (size_t s = 0; s < S; ++s) r[s] = quarter(rng, -2, 1); vs.push_back(r); }
+    for (auto & v : vs) v.array() += off;                                   // a common shift changes nothing but the signs
+    for (size_t i = vs.size(); i > 1; --i) std::swap(vs[i - 1], vs[rng.below(i)]);
+    return vs;
+}
+
 // dyadic belief with exact sum 1 (denominator 2^bits), zeros with probability pz per coordinate
 static Vector genBelief(Rng & rng, size_t S, unsigned bits, unsigned pzNum) {
     const uint64_t D = 1ull << bits;
@@ -313,7 +335,8 @@ static bool sawRepaired() {
 
 // ------------------------------------------------------------------ fixed witness cases (lowest indices)
 static Vector vec(std::initializer_list<double> l) { Vector v(l.size()); size_t i = 0; for (double x : l) v[i++] = x; return v; }
-static const long kFixed = 18;
+static const long kFixed = 23;
+static bool g_thorough = false;
 // cases that exercise sawtoothInterpolation where no stored point helps (the as-found source indexes / reads
 // what is not there): kept in their own cases so a crash is attributed exactly
 extern const long kSawEmptyCase = 12, kSawUnhelpfulCase = 13;
@@ -380,6 +403,27 @@ static void fixed_case(long idx) {
     case 17: { // interpolation at magnitude 2^20 (same surfaces as cases 5 and 9, values scaled)
         Surface s = q3; s.ubQ *= 0x1p20; s.ubV.first = {vec({0.25, 0.75, 0}), vec({0.75, 0.25, 0}), vec({0.25, 0.25, 0.5})}; s.ubV.second = {2.0 * 0x1p20, 1.0 * 0x1p20, 0.0};
         emit_interp("lpi", vec({0.25, 0.5, 0.25}), s); emit_interp("saw", vec({0.25, 0.5, 0.25}), s); break; }
+    case 18: case 19: case 20: case 21: { // exact ties at a corner, EVERY input order (4-d: every order in the thorough tier, every 24th otherwise)
+        static const std::vector<VList> sets{
+            {vec({1, 0.2, 0.2}), vec({1, 0.5, 0}), vec({1, 0, 0.5}), vec({0, 2, 0}), vec({0, 0, 2})},                    // (1,.2,.2) nowhere needed
+            {vec({-4, -4, -1}), vec({-2, -6, -1}), vec({-6, -2, -1}), vec({0, -9, -9}), vec({-9, 0, -9})},              // tie at the last corner, negative values
+            {vec({1, 0.5, 0}), vec({1, 0, 0.5}), vec({1, 0.3, 0.3}), vec({0, 2, 0}), vec({0, 0, 2})},                    // control: all tied vectors needed
+            {vec({5, 1, 1, 1}), vec({5, 4, 0, 0}), vec({5, 0, 4, 0}), vec({5, 0, 0, 4}), vec({0, 9, 0, 0}), vec({0, 0, 9, 0}), vec({0, 0, 0, 9})}};
+        const VList & base = sets[idx - 18];
+        std::vector<size_t> perm(base.size()); std::iota(perm.begin(), perm.end(), 0);
+        size_t k = 0;
+        do { if (base.size() <= 5 || g_thorough || k % 24 == 0) { VList v; for (auto i : perm) v.push_back(base[i]); emit_prune(v, base[0].size()); }
+             ++k; } while (std::next_permutation(perm.begin(), perm.end()));
+        break; }
+    case 22: { // lp_solve precision: (3/4,-3/4) lies 1.67e-7 BELOW the envelope of the two others everywhere, yet findWitness reports delta > 0
+        const Vector k0 = vec({std::ldexp(3377706475927313.0, -52), std::ldexp(-6755421959053881.0, -53)});   // (0.7500015, -0.7500025)
+        VList v{vec({0.75, -0.75}), k0, vec({0, 0.75})};
+        emit_prune(v, 2);
+        VList w{vec({0.75, -0.75}), vec({0.75, std::ldexp(-6755408448254999.0, -53)}), vec({0.75, std::ldexp(-6755421959053881.0, -53)}),
+                vec({0.75, std::ldexp(-6755425628124183.0, -53)}), k0, vec({0, 0.75}), vec({-0.75, -1.75}), vec({-0.75, -1.5}),
+                vec({std::ldexp(-6755394937456117.0, -53), -1.5}), vec({0.75, std::ldexp(-6755408456643607.0, -53)})};   // as found: seed 2 quick case 2353
+        emit_prune(w, 2);
+        break; }
     case 15: { // dominates(): both clauses, boundaries
         emit_dom(vec({1, 1}), vec({1, 1})); emit_dom(vec({1, 1}), vec({1 + 0x1p-20, 1})); emit_dom(vec({1, 1}), vec({1 + 0x1p-19, 1}));
         emit_dom(vec({0x1p22, 0x1p22}), vec({0x1p22 + 0x1p-16, 0x1p22})); emit_dom(vec({-0x1p22, 1}), vec({-0x1p22 + 0x1p-16, 1}));
@@ -391,8 +435,9 @@ static void fixed_case(long idx) {
 long verif::verif_ncases(const std::string & tier) { return kFixed + (tier == "thorough" ? 12000 : 2500); }
 
 void verif::verif_case(Rng & rng, long idx, const std::string & tier) {
-    if (idx < kFixed) { fixed_case(idx); return; }
     const bool thorough = tier == "thorough";
+    g_thorough = thorough;
+    if (idx < kFixed) { fixed_case(idx); return; }
     const unsigned kind = (unsigned)rng.below(10);
     if (kind < 6) {
         const size_t S = 1 + rng.below(6);
@@ -407,7 +452,9 @@ void verif::verif_case(Rng & rng, long idx, const std::string & tier) {
                              // the documented use: old part already pruned
                              VList o(vs.begin(), vs.begin() + k); o.erase(extractDominated(o.begin(), o.end()), o.end());
                              emit_edi(o, VList(vs.begin() + k, vs.end()), S); }
-        else { if (vs.size() > (thorough ? 24u : 12u)) vs.resize(thorough ? 24 : 12); emit_prune(vs, S); }
+        else { if (vs.size() > (thorough ? 24u : 12u)) vs.resize(thorough ? 24 : 12); emit_prune(vs, S);
+               if (rng.coin(1, 3)) { const size_t S2 = 3 + rng.below(2); bool useless; VList ct = genCornerTie(rng, S2, useless);
+                                     std::printf("#stat corner_tie_dim%zu 1\n#stat corner_tie_%s 1\n", S2, useless ? "with_useless" : "control"); emit_prune(ct, S2); } }
     } else {
         const size_t S = 1 + rng.below(5), A = 1 + rng.below(3), N = rng.coin(1, 8) ? rng.below(2) : 1 + rng.below(thorough ? 10 : 6);
         const Vector query = rng.coin(1, 10) ? Vector(Vector::Unit(S, rng.below(S))) : genBelief(rng, S, 4, rng.coin() ? 0 : 3);
